@@ -391,6 +391,17 @@ func vInitialFontWeight() (int, []string) {
 //@   ensures[fresh-list] typeIs(_value, pr.Transforms) && len(_value.(pr.Transforms)) > 0 ==> fresh(result.(pr.Transforms))
 //@   call _lengthOrPercentageTuple2#1 assert arg0 == computer
 
+// bleed (CSS Paged Media 3 §7.2 / css-page-3 "bleed: auto"): auto computes to 6pt (8px) when `marks` has crop,
+// to the package's ZeroPixels (a mutable package variable, so only "a length, not a keyword" is provable about it) otherwise - cross marks alone do not widen the bleed area; a length is made absolute.
+//@ func bleed
+//@   props C04
+//@   requires computer != nil && typeIs(_value, pr.DimOrS)
+//@   modifies anything
+//@   shows[auto-with-crop-marks] _value.(pr.DimOrS).S == "auto" && callresult(GetMarks, 1).Crop ==> result.(pr.DimOrS).Value == 8 && result.(pr.DimOrS).Unit == pr.Px && result.(pr.DimOrS).S == ""
+//@   shows[auto-without-crop-marks] _value.(pr.DimOrS).S == "auto" && !callresult(GetMarks, 1).Crop ==> result.(pr.DimOrS).S == ""
+//@   shows[marks-consulted-for-auto-only] calls(GetMarks) == ite(_value.(pr.DimOrS).S == "auto", 1, 0)
+//@   call length#1 assert[a-length-is-made-absolute] _value.(pr.DimOrS).S != "auto" && arg0 == computer && arg2 == _value.(pr.DimOrS)
+
 //@ func length_
 //@   props C04
 //@   requires computer != nil
@@ -839,3 +850,48 @@ func vNoRelativeLengthLeft() (n int, fails []string) {
 
 //@ bounded vNoRelativeLengthLeft the computed value of every known property declared with 2em, 2em 3em, 1in, 1.5ex or 3rem 2pt (when the validator accepts it): no length in a unit other than px is left
 //@   props C04
+
+// bounded stand-in (C07, "HTML attribute readers"): findStyleAttributes is too large for a per-path no-panic proof
+// (every path times out). vPresentationalHints puts each of 22 hostile attribute values (blank, signs alone,
+// non-ASCII digits, NUL, very long, CSS fragments) on each presentational attribute of each element the reader
+// looks at (20 tags x 17 attributes) and runs the reader with presentational hints on: it returns without a panic.
+func vPresentationalHints() (n int, fails []string) {
+	logger.WarningLogger.SetOutput(io.Discard)
+	defer logger.WarningLogger.SetOutput(os.Stdout)
+	logger.ProgressLogger.SetOutput(io.Discard)
+	defer logger.ProgressLogger.SetOutput(os.Stdout)
+	tags := []string{"body", "center", "div", "font", "table", "tr", "td", "th", "thead", "caption", "col", "hr", "iframe", "embed", "img", "input", "object", "ol", "ul", "li"}
+	attrs := []string{"size", "width", "height", "align", "color", "face", "bgcolor", "background", "border", "bordercolor", "cellspacing", "cellpadding", "hspace", "vspace", "start", "value", "marginheight"}
+	values := []string{" ", "  \t ", "+", "-", "+ ", " - ", "+-", "0", "-1", "+99999999999999999999", "7", "٣", "1\u00002", "%", "1e400", "abc", ";", "}", "url(", "\\", strings.Repeat("9", 5000), "&#32;"}
+	for _, tag := range tags {
+		for _, attr := range attrs {
+			for _, v := range values {
+				n++
+				src := "<" + tag + " type=image " + attr + "=\"" + v + "\"><td " + attr + "=\"" + v + "\"></td></" + tag + ">"
+				if tag == "tr" || tag == "td" || tag == "th" || tag == "thead" || tag == "caption" || tag == "col" {
+					src = "<table><" + tag + " " + attr + "=\"" + v + "\"></" + tag + "></table>"
+				}
+				msg := func() (msg string) {
+					defer func() {
+						if r := recover(); r != nil {
+							msg = fmt.Sprintf("<%s %s=%q>: panic: %v", tag, attr, v, r)
+						}
+					}()
+					page, err := NewHTML(utils.InputString(src), "", nil, "")
+					if err != nil {
+						return ""
+					}
+					findStyleAttributes(page.Root, true, "")
+					return ""
+				}()
+				if msg != "" && len(fails) < 6 {
+					fails = append(fails, msg)
+				}
+			}
+		}
+	}
+	return n, fails
+}
+
+//@ bounded vPresentationalHints the presentational-hint reader on 20 tags x 17 attributes x 22 hostile attribute values (7 480 documents): no panic
+//@   props C07
